@@ -682,12 +682,14 @@ func genC17(ctx *Ctx) []Case {
 		addB("witness", e, []byte{0, 0, 0, 1, 0, 0, 0, 1, 0})
 	}
 	for _, e := range []int{2, 3, 5, 6, 9, 14, 15, 16, 17, 19, 21} {
-		addB("witness", e, []byte{0xff, 0xff, 0xff, 0xff})
-		addB("witness", e, []byte{0, 0, 0, 1, 0xff, 0xff, 0xff, 0xff})
-		// counts around the decoder's own capacity (256), the clamp (1024) and far above
+		// counts around the decoder's own capacity (256), the clamp (1024) and far above; the
+		// 2^23 one comes before 2^32-1 so that an unclamped branch is first seen as an
+		// allocation failure of the oracle and only then as a dead process
 		for _, cnt := range [][]byte{{0, 0, 1, 0}, {0, 0, 1, 1}, {0, 0, 4, 0}, {0, 0, 4, 1}, {0, 128, 0, 0}} {
 			addB("witness", e, append(append([]byte{}, cnt...), 0, 0))
 		}
+		addB("witness", e, []byte{0xff, 0xff, 0xff, 0xff})
+		addB("witness", e, []byte{0, 0, 0, 1, 0xff, 0xff, 0xff, 0xff})
 	}
 	// every cut of valid commits and tables: only complete encodings may be accepted
 	for k := 0; k < 4; k++ {
